@@ -23,7 +23,13 @@ MANIFEST = {
             'abstract interpreter (vm_compute) on the same history; plus non-unit index vectors (model vs implementation only), '
             'malformed index lengths (IndexError), comparison pairs of lengths 4..9 differing at several positions (>= 2 inside one '
             'half of the _norm split; all six operators both ways) and histories that reuse ONE index object (unit-vector list, '
-            'secindex, secure number) across consecutive operations and two lists (the object must stay unchanged).',
+            'secindex, secure number) across consecutive operations and two lists (the object must stay unchanged); and an extreme-'
+            'values stream for every value-dependent operation (contains/count/find/index/remove/==/!= on full-range values, '
+            '</<=/>/>=/sort on values whose differences stay representable): secint(8/16/32/64), secfxp(32:16, 16:8), GF(p) for '
+            'p = 11..65537 with lists shorter than p-1, GF(2^8); lists of powers of two +-1, extremes, values whose differences to '
+            'an absent item are powers of two / multiples of 2^(l/2) / tiny fractions. Also proved: contains (count != 0 with count '
+            'summed in a field of characteristic p) = list membership for every list shorter than p, and the guard is tight '
+            '(C31_contains_char_guard / _boundary: the boundary of finding F-C31-2).',
     'note': 'Trusted/modelled, not verified here: runtime helpers at value level (in_prod, vector_add/sub, schur_prod, scalar_mul, '
             'sgn, ==, sum, all, if_else) and runtime.unit_vector represented by its specification uvec (C30 ties unit_vector to it); '
             'list.sort is modelled by a specification sort (runtime._sort belongs to C29); methods delegated to list (public '
@@ -49,18 +55,22 @@ ONE = 1 << FRAC
 # type descriptors
 
 class TI:
-    def __init__(self, mpc, kind, p=None, char2=False):
+    def __init__(self, mpc, kind, p=None, char2=False, l=None, f=None):
         self.kind = kind
         self.p = p
         self.char2 = char2
+        self.l = l or 32
+        self.f = (f or FRAC) if kind == 'fxp' else 0
+        self.one = 1 << self.f
         if kind == 'int':
-            self.T = mpc.SecInt()
+            self.T = mpc.SecInt(l) if l else mpc.SecInt()
             self.pool = [-3, -2, -1, 0, 1, 2, 3, 4]
-            self.name = 'secint'
+            self.name = 'secint' + ('(%d)' % l if l else '')
         elif kind == 'fxp':
-            self.T = mpc.SecFxp()
-            self.pool = [k * ONE + ONE // 2 for k in (-3, -2, -1, 0, 1, 2)] + [ONE // 4, 3 * ONE + ONE // 4]
-            self.name = 'secfxp'
+            self.T = mpc.SecFxp(l, f) if l else mpc.SecFxp()
+            one = self.one
+            self.pool = [k * one + one // 2 for k in (-3, -2, -1, 0, 1, 2)] + [one // 4, 3 * one + one // 4]
+            self.name = 'secfxp' + ('(%d:%d)' % (l, f) if l else '')
         else:
             self.T = mpc.SecFld(p)
             if char2:
@@ -72,7 +82,7 @@ class TI:
         self.public_results = 0
 
     def to_impl(self, c):
-        return c / ONE if self.kind == 'fxp' else c
+        return c / self.one if self.kind == 'fxp' else c
 
     def sec(self, c):
         return self.T(self.to_impl(c))
@@ -80,7 +90,7 @@ class TI:
     def canon(self, v):
         """opened list element -> canonical int"""
         if self.kind == 'fxp':
-            return int(v * ONE)
+            return int(v * self.one)
         return int(v)
 
     def canon_small(self, v):
@@ -821,6 +831,127 @@ def reuse_history(rng, ti, seclist, secindex):
     return kind, bad, detail, [(inits[w], cops[w], itr[w], otr[w]) for w in (0, 1) if cops[w]]
 
 
+
+# ------------------------------------------------------------------------------------------
+# extreme in-range values for every value-dependent operation
+
+def extreme_values(rng, ti, ranged):
+    """candidate canonical values of the type; ranged: keep |v| below a quarter of the range so that
+    differences of two values stay representable (needed by <, <=, >, >=, sort: sgn(a - b))"""
+    if ti.kind == 'int':
+        l = ti.l
+        M = (1 << (l - 1)) - 1
+        if ranged:
+            M = (1 << (l - 2)) - 1
+        vals = {0, 1, -1, M, -M, M - 1, -M + 1}
+        for k in range(1, l - 1):
+            for d in (-1, 0, 1):
+                vals |= {(1 << k) + d, -(1 << k) + d}
+        h = 1 << (l // 2)
+        vals |= {j * h for j in range(-5, 6)} | {j * h + 1 for j in range(-3, 4)}
+        return sorted(v for v in vals if abs(v) <= M)
+    if ti.kind == 'fxp':
+        one = ti.one
+        B = 1 << (ti.l - ti.f - 1)                 # |value| < B
+        K = (B // 2 if ranged else B) - 1
+        ks = {0, 1, -1, K, -K, K - 1, -K + 1}
+        for k in range(1, ti.l - ti.f - 1):
+            for d in (-1, 0, 1):
+                ks |= {(1 << k) + d, -(1 << k) + d}
+        fr = [1, one // 2, one - 1, one // 4]       # never integral (mixed integrality is F-C03 of another property)
+        vals = {k * one + f for k in ks if abs(k) < K for f in fr} | {K * one - 1, -K * one + 1}
+        return sorted(vals)
+    p = ti.p
+    if ti.char2:
+        return list(range(p))
+    return sorted({0, 1, 2, 3, p - 1, p - 2, p // 2, p // 2 + 1, rng.randrange(p), rng.randrange(p), rng.randrange(p)})
+
+
+def gen_extreme_case(rng, ti, ranged):
+    """(list, items): items present and absent; lists built so that the differences to an absent item are
+    powers of two / multiples of 2^(l/2) / tiny fractions (products of differences overflow, underflow or
+    vanish modulo 2^l) or are extreme"""
+    E = extreme_values(rng, ti, ranged)
+    lo, hi = E[0], E[-1]
+    maxn = 12
+    if ti.kind == 'fld':
+        maxn = min(12, ti.p - 2)
+    n = rng.choice([1, 2, 3, 5, 8, maxn, rng.randrange(1, maxn + 1)])
+    n = min(n, maxn)
+    mode = rng.randrange(4)
+    t = rng.choice(E)
+    if ti.kind == 'fld':
+        if ti.char2:
+            xs = rng.sample(E, n)                       # distinct: count <= 1 (F-C31-2 is about even counts)
+        else:
+            xs = [rng.choice(E) if rng.random() < 0.6 else rng.randrange(ti.p) for _ in range(n)]
+    elif mode == 0:
+        xs = [rng.choice(E) for _ in range(n)]
+    elif mode == 1:
+        # differences to t are +-powers of two whose exponents add up to >= l (product = 0 mod 2^l)
+        bits = ti.l
+        xs = []
+        for _ in range(n):
+            k = rng.randrange(1, bits - 1)
+            for cand in (t + (1 << k), t - (1 << k)):
+                if lo <= cand <= hi:
+                    xs.append(cand)
+                    break
+        xs = xs or [t + 1 if t + 1 <= hi else t - 1]
+    elif mode == 2:
+        # differences are multiples of 2^(l/2) (secint) / of tiny fractions (secfxp: products underflow)
+        unit = (1 << (ti.l // 2)) if ti.kind == 'int' else rng.choice([1, 2, 1 << (ti.f // 2)])
+        xs = []
+        for _ in range(n):
+            cand = t + unit * rng.choice([-3, -2, -1, 1, 2, 3])
+            if lo <= cand <= hi:
+                xs.append(cand)
+        xs = xs or [t + 1 if t + 1 <= hi else t - 1]
+    else:
+        big = [v for v in E if abs(v) >= hi // 2] or E   # long lists of large values (product overflow)
+        xs = [rng.choice(big) for _ in range(n)]
+    if ti.kind == 'fxp':
+        xs = [x if x % ti.one else x + 1 for x in xs]     # keep every element non-integral
+    items = []
+    if t not in xs:
+        items.append(t)
+    items.append(rng.choice(xs))
+    near = rng.choice(xs) + rng.choice([-1, 1])
+    if ti.kind == 'fld':
+        near %= ti.p
+    if lo <= near <= hi or ti.kind == 'fld':
+        items.append(near)
+    if ti.char2:
+        items = [v for v in items if xs.count(v) <= 1]
+    return xs, items
+
+
+def extreme_history(rng, ti, xs, items, ranged):
+    cops = []
+    searches = ('contains', 'count') if ti.char2 else ('contains', 'count', 'find', 'index')
+    for v in items:
+        for op in searches:
+            cops.append({'op': op, 'v': v, 'wrap': rng.random() < 0.5})
+    ys = list(xs)
+    j = rng.randrange(len(ys))
+    E = extreme_values(rng, ti, ranged)
+    ys[j] = rng.choice([v for v in (ys[j] + 1, ys[j] - 1, rng.choice(E)) if E[0] <= v <= E[-1] or ti.kind == 'fld'] or [ys[j]])
+    if ti.kind == 'fld':
+        ys[j] %= ti.p
+    if ti.kind == 'fxp' and ys[j] % ti.one == 0:
+        ys[j] += 1
+    cs = CMPS if (ranged and ti.kind != 'fld') else ('eq', 'ne')
+    for other in (ys, list(xs)):
+        for cc in cs:
+            cops.append({'op': 'cmp', 'c': cc, 'swap': rng.random() < 0.5, 'ys': other, 'yform': rng.randrange(3)})
+    if ranged and ti.kind != 'fld':
+        cops.append({'op': 'sort'})
+    if not ti.char2:
+        cops.append({'op': 'remove', 'v': rng.choice(items), 'wrap': rng.random() < 0.5})
+        cops.append({'op': 'contains', 'v': items[-1], 'wrap': False})
+    return cops
+
+
 # ------------------------------------------------------------------------------------------
 
 def run(ctx):
@@ -974,6 +1105,38 @@ def run(ctx):
             exprs.append('let x := %s in let h := [%s] in (run step x h, run pystep x h, valid_histb x h)' % (
                 zlist(init), '; '.join(coq_op(c) for c in cops)))
             meta.append(('hist', ti, {'type': ti.name, 'init': init, 'ops': [coq_op(c) for c in cops], 'reuse': True}, itr, otr))
+
+    # ---- extreme in-range values for every value-dependent operation (Python list oracle + Coq model)
+    xtypes = [TI(mpc, 'int', l=8), TI(mpc, 'int', l=16), TI(mpc, 'int', l=32), TI(mpc, 'int', l=64),
+              TI(mpc, 'fxp', l=32, f=16), TI(mpc, 'fxp', l=16, f=8),
+              TI(mpc, 'fld', 11), TI(mpc, 'fld', 13), TI(mpc, 'fld', 101), TI(mpc, 'fld', 257), TI(mpc, 'fld', 65537),
+              TI(mpc, 'fld', 2**8, char2=True)]
+    xtypes[-1].name = 'secfld(2^8)'
+    nx = 0
+    for ti in xtypes:
+        for h in range(ctx.n(10, 60)):
+            ranged = (h % 2 == 1)
+            xs, items = gen_extreme_case(rng, ti, ranged)
+            if not items:
+                continue
+            cops = extreme_history(rng, ti, xs, items, ranged)
+            itr = run_impl(ti, xs, cops, seclist, secindex)
+            otr = run_oracle(ti, xs, cops)
+            nx += 1
+            key = {'type': ti.name, 'extreme': xs, 'items': items, 'ranged': ranged, 'ops': [coq_op(c) for c in cops]}
+            ctx.case(key, nontrivial=True, kind='extreme values ' + ti.name)
+            d = first_diff(itr, otr)
+            if d is not None:
+                c = cops[d]
+                before = otr[d - 1][0] if d else xs
+                ctx.violation('extreme-values %s op=%s%s' % (ti.name, c['op'], ('/' + c['c']) if 'c' in c else ''),
+                              {'type': ti.name, 'list_before': before, 'op': c, 'impl': itr[d] if d < len(itr) else None,
+                               'python_list': otr[d], 'init': xs, 'history': cops[:d + 1]})
+                continue
+            exprs.append('let x := %s in let h := [%s] in (run step x h, run pystep x h, valid_histb x h)' % (
+                zlist(xs), '; '.join(coq_op(c) for c in cops)))
+            meta.append(('hist', ti, key, itr, otr))
+    ctx.extra['extreme_value_cases'] = nx
 
     # ---- evaluate model and abstract interpreter in Coq
     if ok:
